@@ -136,7 +136,7 @@ def scenario(e, cfg, built=None):
             ctx.__exit__(None, None, None)
 
 
-def real_pool_stalling_consumer(T, steps=12, total=400, slow_source=False):
+def real_pool_stalling_consumer(T, steps=12, total=400, slow_source=False, slow_f=False):
     """Concrete anchor on the REAL LazyPool with real threads: the consumer takes one result at a time and waits until the
     pool is quiescent (nothing more is pulled or mapped without the consumer) before taking the next.  At every such point
     inputs pulled - results taken must stay within 2T+3 (the pocomp bound), however many steps were made."""
@@ -156,6 +156,8 @@ def real_pool_stalling_consumer(T, steps=12, total=400, slow_source=False):
             yield i
 
     def f(x):
+        if slow_f:
+            time.sleep(0.004)  # workers slower than the consumer: the result queue is empty whenever the consumer polls it
         mapped[0] += 1
         return x
 
@@ -178,6 +180,8 @@ def real_pool_stalling_consumer(T, steps=12, total=400, slow_source=False):
             for k in range(steps):
                 next(it)
                 out["taken"] = k + 1
+                if slow_f and (k + 1) % 6:
+                    continue  # a burst of results taken at full speed, then a pause
                 quiescent()
                 out["worst"] = max(out["worst"], pulled[0] - (k + 1))
         out["done"] = True
@@ -200,6 +204,9 @@ def _real_pool_cell(cell):
         r2 = real_pool_stalling_consumer(T, slow_source=True)
         if r2["hang"] or r2["worst"] > r["worst"]:
             r = r2
+        r3 = real_pool_stalling_consumer(T, steps=24, slow_f=True)
+        if r3["hang"] or r3["worst"] > r["worst"]:
+            r = r3
         bound = 2 * T + 3
         if r["hang"] or r["worst"] > bound:
             what = (f"did not deliver {cell.get('steps', 12)} results within 60 s (pulled {r['pulled']} inputs)" if r["hang"] else
@@ -292,6 +299,9 @@ def replay(case):
             r = real_pool_stalling_consumer(T, slow_source=slow)
             if r["hang"] or r["worst"] > 2 * T + 3:
                 return True, f"slow_source={slow}: {r}"
+        r = real_pool_stalling_consumer(T, steps=24, slow_f=True)
+        if r["hang"] or r["worst"] > 2 * T + 3:
+            return True, f"slow mapped function, bursts of 6 results: {r}"
         return False, str(r)
     try:
         scenario(ConcreteEngine(case["model"]), case["cfg"])
